@@ -83,7 +83,19 @@ def stat_iqr(x):  # sorting along the last axis
     return float(s_[(3 * len(s_)) // 4] - s_[len(s_) // 4])
 
 
+def stat_log_var(x):  # -inf on a flat-lined stretch: below any finite lower bound
+    with np.errstate(all="ignore"):
+        return float(np.log(np.var(x)))
+
+
+def stat_inv_std(x):  # +inf on a flat-lined stretch: above any finite upper bound
+    with np.errstate(all="ignore"):
+        return float(np.float64(1.0) / np.std(x))
+
+
 CALLABLES = {
+    "log_var": stat_log_var,
+    "inv_std": stat_inv_std,
     "sample_std": stat_sample_std,
     "lag1_autocorr": stat_lag1_autocorr,
     "roughness": stat_roughness,
